@@ -507,4 +507,253 @@ theorem getD_zero_or_mem (v : List UInt8) (i : Nat) : v.getD i 0 = 0 ∨ v.getD 
 theorem not_mem_of_infix {x : UInt8} {v a : Bytes} (h : v <:+: a) (hx : x ∉ a) : x ∉ v :=
   fun hv => hx (h.subset hv)
 
+/-! ### reference interpreter of substitution templates (specification level) -/
+
+/-- the documented modifiers of `${...}` / `%{...}` -/
+inductive Modifier
+  | esc | escape | escnde | escpsnde | noesc | noescape | tolower | toupper | encb64u | decb64u
+deriving Repr, DecidableEq
+
+/-- how a modifier is written (including the ':' that ends it) -/
+def Modifier.name : Modifier → Bytes
+  | .esc => ofString "esc:" | .escape => ofString "escape:" | .escnde => ofString "escnde:"
+  | .escpsnde => ofString "escpsnde:" | .noesc => ofString "noesc:" | .noescape => ofString "noescape:"
+  | .tolower => ofString "tolower:" | .toupper => ofString "toupper:" | .encb64u => ofString "encb64u:"
+  | .decb64u => ofString "decb64u:"
+
+/-- the recoding a modifier is documented to select (burl.h flag) -/
+def Modifier.flag : Modifier → Nat
+  | .esc => Extracted.burlEncodeAll | .escape => Extracted.burlEncodeAll | .escnde => Extracted.burlEncodeNde
+  | .escpsnde => Extracted.burlEncodePsnde | .noesc => Extracted.burlEncodeNone
+  | .noescape => Extracted.burlEncodeNone | .tolower => Extracted.burlToLower
+  | .toupper => Extracted.burlToUpper | .encb64u => Extracted.burlEncodeB64u
+  | .decb64u => Extracted.burlDecodeB64u
+
+/-- the documented modifiers as (name, flag) pairs -/
+def documentedModifiers : List (Bytes × Nat) :=
+  [Modifier.esc, .escape, .escnde, .escpsnde, .noesc, .noescape, .tolower, .toupper, .encb64u, .decb64u].map
+    fun m => (m.name, m.flag)
+
+/-- what a `${...}` placeholder inserts -/
+inductive Item
+  | cap (d : UInt8)             -- capture N, one digit
+  | cap2 (d1 d2 : UInt8)        -- capture NN, two digits
+  | scheme | authority | port | path | query | qsa
+deriving Repr, DecidableEq
+
+def Item.render : Item → Bytes
+  | .cap d => [d]
+  | .cap2 d1 d2 => [d1, d2]
+  | .scheme => ofString "url.scheme" | .authority => ofString "url.authority" | .port => ofString "url.port"
+  | .path => ofString "url.path" | .query => ofString "url.query" | .qsa => ofString "qsa"
+
+/-- tokens of a well-formed template -/
+inductive Tok
+  | lit (s : Bytes)                                        -- text without '$' and '%'
+  | sigil (c : UInt8)                                      -- "$$" / "%%": a literal '$' / '%'
+  | raw (c d : UInt8)                                      -- $N / %N
+  | ext (c : UInt8) (mods : List Modifier) (item : Item)   -- ${mod:...:item} / %{mod:...:item}
+deriving Repr, DecidableEq
+
+def Tok.render : Tok → Bytes
+  | .lit s => s
+  | .sigil c => [c, c]
+  | .raw c d => [c, d]
+  | .ext c mods item => c :: lbrace :: (mods.flatMap Modifier.name ++ item.render ++ [rbrace])
+
+def Item.WF : Item → Prop
+  | .cap d => isDigit d = true
+  | .cap2 d1 d2 => isDigit d1 = true ∧ isDigit d2 = true
+  | _ => True
+
+def Tok.WF : Tok → Prop
+  | .lit s => ∀ c ∈ s, isSigil c = false
+  | .sigil c => isSigil c = true
+  | .raw c d => isSigil c = true ∧ isDigit d = true
+  | .ext c _ item => isSigil c = true ∧ item.WF
+
+/-- capture N of the rule (`$`) or of the enclosing condition (`%`), with the bytes behind it -/
+def capOf (env : Env) (c : UInt8) (n : Nat) : Bytes × Bytes :=
+  if c = dollar then env.rule.get n
+  else match env.cond with
+    | some cd => cd.get n
+    | none => ([], [])
+
+/-- what an item appends, given the recoding flags `fl` selected by the modifiers before it -/
+def Item.apply (env : Env) (c : UInt8) (fl : Nat) : Item → Bytes → Bytes
+  | .cap d, out =>
+    -- captures are recoded with escpsnde unless a modifier says otherwise
+    out ++ burlAppend (if fl = 0 then Extracted.burlEncodePsnde else fl)
+             (capOf env c (d.toNat - 48)).1 (capOf env c (d.toNat - 48)).2
+  | .cap2 d1 d2, out =>
+    out ++ burlAppend (if fl = 0 then Extracted.burlEncodePsnde else fl)
+             (capOf env c ((d1.toNat - 48) * 10 + (d2.toNat - 48))).1
+             (capOf env c ((d1.toNat - 48) * 10 + (d2.toNat - 48))).2
+  | .scheme, out => out ++ burlAppend fl (env.url.scheme.getD []) []
+  | .authority, out => out ++ burlAppend fl (env.url.authority.getD []) []
+  | .port, out => out ++ natToDec env.url.port
+  | .path, out =>
+    out ++ burlAppend fl (env.url.path.takeWhile (· ≠ qmark))
+             (env.url.path.drop (env.url.path.takeWhile (· ≠ qmark)).length)
+  | .query, out => out ++ burlAppend fl (env.url.query.getD []) []
+  | .qsa, out => qsaAppend env.url fl out
+
+/-- the reference semantics of one token: the result so far ↦ the result after the token -/
+def Tok.interp (env : Env) : Tok → Bytes → Bytes
+  | .lit s, out => out ++ s
+  | .sigil c, out => out ++ [c]
+  | .raw c d, out => out ++ (capOf env c (d.toNat - 48)).1
+  | .ext c mods item, out => item.apply env c (mods.foldl (fun f m => f ||| m.flag) 0) out
+
+/-- the reference interpreter: expand a token list -/
+def interpret (env : Env) (toks : List Tok) (out : Bytes) : Bytes :=
+  toks.foldl (fun o tk => tk.interp env o) out
+
+theorem capAppend_eq (env : Env) (c : UInt8) (n fl : Nat) :
+    capAppend env c n fl = burlAppend fl (capOf env c n).1 (capOf env c n).2 := by
+  unfold capAppend capOf
+  by_cases hc : c = dollar
+  · simp [hc]
+  · simp only [hc, if_false]
+    cases env.cond with
+    | none => simp [burlAppend_nil]
+    | some cd => simp
+
+/-- every documented modifier selects the recoding it is named after -/
+theorem extGo_modifier (m : Modifier) (env : Env) (sigil : UInt8) (out p : Bytes) (pos fl : Nat) :
+    extGo env sigil out (m.name ++ p) 0 pos fl = extGo env sigil out p 0 (pos + m.name.length) (fl ||| m.flag) := by
+  have e1 : ofString "esc:" = [101, 115, 99, 58] := by decide
+  have e2 : ofString "escape:" = [101, 115, 99, 97, 112, 101, 58] := by decide
+  have e3 : ofString "escnde:" = [101, 115, 99, 110, 100, 101, 58] := by decide
+  have e4 : ofString "escpsnde:" = [101, 115, 99, 112, 115, 110, 100, 101, 58] := by decide
+  have e5 : ofString "noesc:" = [110, 111, 101, 115, 99, 58] := by decide
+  have e6 : ofString "noescape:" = [110, 111, 101, 115, 99, 97, 112, 101, 58] := by decide
+  have e7 : ofString "tolower:" = [116, 111, 108, 111, 119, 101, 114, 58] := by decide
+  have e8 : ofString "toupper:" = [116, 111, 117, 112, 112, 101, 114, 58] := by decide
+  have e9 : ofString "encb64u:" = [101, 110, 99, 98, 54, 52, 117, 58] := by decide
+  have e10 : ofString "decb64u:" = [100, 101, 99, 98, 54, 52, 117, 58] := by decide
+  cases m <;> simp only [Modifier.name, Modifier.flag, e1, e2, e3, e4, e5, e6, e7, e8, e9, e10] <;>
+    simp [extGo, startsWith, sEsc, sApe, sNde, sPsnde, sNo, sEscC, sEscapeC, sTo, sLowerC, sUpperC,
+          sUrlDot, sQsa, sEncB64, sDecB64, ofString, isDigit, rbrace, colon,
+          Extracted.kvMod_esc, Extracted.kvMod_escape, Extracted.kvMod_escnde, Extracted.kvMod_escpsnde,
+          Extracted.kvMod_noesc, Extracted.kvMod_noescape, Extracted.kvMod_tolower, Extracted.kvMod_toupper,
+          Extracted.kvMod_encb64u, Extracted.kvMod_decb64u,
+          Extracted.burlEncodeAll, Extracted.burlEncodeNde, Extracted.burlEncodePsnde,
+          Extracted.burlEncodeNone, Extracted.burlToLower, Extracted.burlToUpper,
+          Extracted.burlEncodeB64u, Extracted.burlDecodeB64u]
+
+theorem extGo_modifiers (env : Env) (sigil : UInt8) (out p : Bytes) :
+    ∀ (mods : List Modifier) (pos fl : Nat),
+      extGo env sigil out (mods.flatMap Modifier.name ++ p) 0 pos fl =
+        extGo env sigil out p 0 (pos + (mods.flatMap Modifier.name).length)
+          (mods.foldl (fun f m => f ||| m.flag) fl) := by
+  intro mods
+  induction mods with
+  | nil => intro pos fl; simp
+  | cons m ms ih =>
+    intro pos fl
+    simp only [List.flatMap_cons, List.append_assoc, List.foldl_cons, List.length_append]
+    rw [extGo_modifier, ih]
+    congr 1
+    omega
+
+/-- the item that ends a placeholder, after any modifiers (`fl` = flags selected so far) -/
+theorem extGo_item (env : Env) (c : UInt8) (out t : Bytes) (pos fl : Nat) (item : Item) (hw : item.WF) :
+    extGo env c out (item.render ++ rbrace :: t) 0 pos fl =
+      some (item.apply env c fl out, pos + item.render.length + 1) := by
+  have e1 : ofString "url.scheme" = [117, 114, 108, 46, 115, 99, 104, 101, 109, 101] := by decide
+  have e2 : ofString "url.authority" = [117, 114, 108, 46, 97, 117, 116, 104, 111, 114, 105, 116, 121] := by decide
+  have e3 : ofString "url.port" = [117, 114, 108, 46, 112, 111, 114, 116] := by decide
+  have e4 : ofString "url.path" = [117, 114, 108, 46, 112, 97, 116, 104] := by decide
+  have e5 : ofString "url.query" = [117, 114, 108, 46, 113, 117, 101, 114, 121] := by decide
+  have e6 : ofString "qsa" = [113, 115, 97] := by decide
+  cases item with
+  | cap d =>
+    simp only [Item.WF] at hw
+    simp only [Item.render, List.cons_append, List.nil_append, extGo, hw, if_true]
+    simp [extNumber, isDigit, rbrace, idxOf?, capAppend_eq, Item.apply, Extracted.kvMod_default,
+          Extracted.burlEncodePsnde]
+  | cap2 d1 d2 =>
+    simp only [Item.WF] at hw
+    simp only [Item.render, List.cons_append, List.nil_append, extGo, hw.1, if_true]
+    simp [extNumber, hw.2, rbrace, idxOf?, capAppend_eq, Item.apply, Extracted.kvMod_default,
+          Extracted.burlEncodePsnde]
+  | scheme =>
+    simp only [Item.render, e1, List.cons_append, List.nil_append]
+    simp only [extGo, startsWith, sEsc, sNo, sTo, sUrlDot, sScheme, ofString, isDigit, rbrace]
+    cases h : env.url.scheme <;> simp [Item.apply, h, burlAppend_nil]
+  | authority =>
+    simp only [Item.render, e2, List.cons_append, List.nil_append]
+    simp only [extGo, startsWith, sEsc, sNo, sTo, sUrlDot, sScheme, sAuthority, ofString, isDigit, rbrace]
+    cases h : env.url.authority <;> simp [Item.apply, h, burlAppend_nil]
+  | port =>
+    simp only [Item.render, e3, List.cons_append, List.nil_append]
+    simp only [extGo, startsWith, sEsc, sNo, sTo, sUrlDot, sScheme, sAuthority, sPort, ofString, isDigit, rbrace]
+    simp [Item.apply]
+  | path =>
+    simp only [Item.render, e4, List.cons_append, List.nil_append]
+    simp only [extGo, startsWith, sEsc, sNo, sTo, sUrlDot, sScheme, sAuthority, sPort, sPath, ofString, isDigit, rbrace]
+    simp [Item.apply]
+  | query =>
+    simp only [Item.render, e5, List.cons_append, List.nil_append]
+    simp only [extGo, startsWith, sEsc, sNo, sTo, sUrlDot, sScheme, sAuthority, sPort, sPath, sQuery, ofString,
+               isDigit, rbrace]
+    cases h : env.url.query <;> simp [Item.apply, h, burlAppend_nil]
+  | qsa =>
+    simp only [Item.render, e6, List.cons_append, List.nil_append]
+    simp only [extGo, startsWith, sEsc, sNo, sTo, sUrlDot, sQsa, ofString, isDigit, rbrace]
+    simp [Item.apply]
+
+/-- one token of a well-formed template is expanded by pcre_keyvalue_buffer_subst() exactly as the
+    reference semantics says -/
+theorem substGo_tok (env : Env) (tk : Tok) (hw : tk.WF) (t out : Bytes) :
+    substGo env (tk.render ++ t) 0 out = substGo env t 0 (tk.interp env out) := by
+  cases tk with
+  | lit s => exact substGo_literal env s t out hw
+  | sigil c =>
+    simp only [Tok.WF, isSigil] at hw
+    simp only [Tok.render, List.cons_append, List.nil_append, Tok.interp]
+    conv => lhs; unfold substGo
+    have hb : c ≠ lbrace := by
+      intro e; subst e; simp [lbrace, dollar, pct] at hw
+    have hd : isDigit c = false := by
+      rcases Bool.or_eq_true _ _ ▸ hw with h | h <;> simp at h <;> subst h <;> decide
+    simp only [hw, if_true, hb, hd, if_false, Bool.false_eq_true]
+    rw [substGo_skip]; simp
+  | raw c d =>
+    simp only [Tok.WF, isSigil] at hw
+    obtain ⟨hc, hd⟩ := hw
+    have hb : d ≠ lbrace := by
+      intro e; subst e; simp [isDigit, lbrace] at hd
+    simp only [Tok.render, List.cons_append, List.nil_append, Tok.interp]
+    conv => lhs; unfold substGo
+    simp only [hc, if_true, hb, hd, if_false]
+    rw [substGo_skip, capAppend_eq, burlAppend_zero]; simp
+  | ext c mods item =>
+    simp only [Tok.WF] at hw
+    obtain ⟨hc, hi⟩ := hw
+    simp only [Tok.render, List.cons_append, List.append_assoc, Tok.interp]
+    rw [substGo_brace env c hc]
+    simp only [substExt, List.nil_append]
+    rw [extGo_modifiers, extGo_item env c out t _ _ item hi]
+    simp only
+    have hl : (mods.flatMap Modifier.name ++ item.render ++ [rbrace]).length =
+        0 + (mods.flatMap Modifier.name).length + item.render.length + 1 := by
+      simp only [List.length_append, List.length_cons, List.length_nil]; omega
+    have hs : mods.flatMap Modifier.name ++ (item.render ++ rbrace :: t) =
+        (mods.flatMap Modifier.name ++ item.render ++ [rbrace]) ++ t := by simp
+    rw [hs, ← hl, List.drop_left]
+
+/-- pcre_keyvalue_buffer_subst() on a well-formed template = the reference interpreter -/
+theorem substGo_interpret (env : Env) : ∀ (toks : List Tok), (∀ tk ∈ toks, tk.WF) → ∀ (t out : Bytes),
+    substGo env (toks.flatMap Tok.render ++ t) 0 out = substGo env t 0 (interpret env toks out) := by
+  intro toks
+  induction toks with
+  | nil => intro _ t out; simp [interpret]
+  | cons tk rest ih =>
+    intro hw t out
+    simp only [List.flatMap_cons, List.append_assoc, interpret, List.foldl_cons]
+    rw [substGo_tok env tk (hw tk (by simp))]
+    exact ih (fun x hx => hw x (by simp [hx])) t _
+
 end LtVerif
